@@ -5,6 +5,15 @@
 From V Require Export Lang.Vm Lang.Verify Metrics.FloatBits.
 Local Open Scope Z_scope.
 
+(* byte strings are written by the harness as (length, big-endian number):
+   Coq reads a hexadecimal numeral much faster than a list of small numbers *)
+Fixpoint bz_aux (n : nat) (x : N) (acc : bytes) : bytes :=
+  match n with
+  | O => acc
+  | S n' => bz_aux n' (N.shiftr x 8) (N.land x 255 :: acc)
+  end.
+Definition bz (n : nat) (x : N) : bytes := bz_aux n x [].
+
 (* ---- an executable env: primitive floats + harness tables ---- *)
 Record tables := mktables {
   tb_re_match : list (N * bytes * option (list bytes));
@@ -133,14 +142,12 @@ Definition kind_eqb (a b : kind) : bool :=
 
 Definition known_reject (d : diag) : bool :=
   let '(_, op, k) := d in
-  match op, k with
-  | Settime, KInt => true
-  | Fset, KI64 | Fset, KDatum => true
-  | Iset, KF64 | Iset, KDatum => true
-  | Inc, KF64 | Inc, KDatum => true
-  | Fadd, KI64 | Fadd, KDatum => true
-  | Jnm, KF64 | Jm, KF64 => true
-  | _, _ => false
+  match k with
+  | KI64 | KF64 => true      (* numeric-operand / cond-operand: int64 where float64 is due or the reverse *)
+  | KDatum => true           (* datum-type: a datum of another type than the instruction's *)
+  | KInt | KStr =>           (* settime-operand, cond-operand *)
+      match op with Settime | Jnm | Jm => true | _ => false end
+  | _ => false
   end.
 
 Definition verify_as (e : expect) (o : object) : bool :=
